@@ -32,11 +32,11 @@ def template_table(F, rep, rule):
         rep.fn_seen(f)
         ts = flowtpl.templates_of(F, f)
         if not ts:
-            rep.bad(rule, "unrecognised-shape:" + nm, "no Template::new(..) with reconstructible text found in %s" % nm, f.where()); return None
+            rep.undecided(rule, "unrecognised-shape:" + nm, "no Template::new(..) with reconstructible text found in %s" % nm, f.where()); return None
         for conds, txt, holes in ts:
             sp = flowtpl.split_template(txt)
             if sp is None:
-                rep.bad(rule, "unrecognised-shape:" + nm, "%s builds %r, which is not {%% if C %%}X{%% else %%}None{%% endif %%}" % (nm, txt), f.where()); return None
+                rep.undecided(rule, "unrecognised-shape:" + nm, "%s builds %r, which is not {%% if C %%}X{%% else %%}None{%% endif %%}" % (nm, txt), f.where()); return None
             cond, content, other = sp
             if other.strip() != "None":
                 rep.bad(rule, "else-branch:" + nm, "%s: the else branch yields %r instead of None (the component would be bumped at a clean tag)" % (nm, other), f.where())
@@ -76,7 +76,7 @@ def check(F, rep, tier):
             try:
                 same, cex = flowtpl.same_truth(cond, wc)
             except Exception as e:
-                rep.bad("R04.1", "unrecognised-shape:cond:" + name, "cannot parse guard %r: %s" % (cond, e), None); continue
+                rep.undecided("R04.1", "unrecognised-shape:cond:" + name, "cannot parse guard %r: %s" % (cond, e), None); continue
             if not same:
                 rep.bad("R04.1", "guard:" + name, "%s is guarded by `%s`, the documented rule is `%s` (they differ at %s)" % (name, cond, wc, cex), None)
             elif norm_tera(content) != norm_tera(wcontent):
@@ -131,7 +131,7 @@ def wildcard(F, rep):
                     # or the same arm separately requires the remainder to start with '/'
                     rep.bad(rule, "prefix-loses-separator:" + nm, "%s strips %d characters of the %r suffix, so the retained prefix (%r) does not end in '/': 'prefix/*' also matches 'prefixfoo'" % (nm, e[2], sfx, kept), site)
             else:
-                rep.bad(rule, "unrecognised-shape:" + nm, "cannot relate the wildcard prefix slice to its ends_with guard (%s, %r)" % (e, sfx), site)
+                rep.undecided(rule, "unrecognised-shape:" + nm, "cannot relate the wildcard prefix slice to its ends_with guard (%s, %r)" % (e, sfx), site)
     rep.floor(rule, "wildcard prefix slices", n, 2)
     # matches(): 3-row table: "*" -> non-empty; ".../*" -> starts_with(prefix) && longer; else equality
     f = F.fn("crate::cli::flow::branch_rules::BranchRule::matches")
@@ -240,7 +240,7 @@ def hash_len(F, rep):
         ty = m.group(1) if m else None
     bits = {"u8": 8, "u16": 16, "u32": 32, "u64": 64, "usize": 64}.get(ty)
     if ub is None or bits is None:
-        rep.bad(rule, "unrecognised-shape:hash-len", "cannot read the length bound (%s) or the number type (%s)" % (ub, ty), f.where()); return
+        rep.undecided(rule, "unrecognised-shape:hash-len", "cannot read the length bound (%s) or the number type (%s)" % (ub, ty), f.where()); return
     digits = len(str(2 ** bits - 1)) - 1          # every number with this many digits fits
     if ub <= digits: rep.ok(rule, "every accepted hash length (<= %d) yields a number that fits %s (%d safe digits)" % (ub, ty, digits), nontrivial_key="fit")
     else: rep.bad(rule, "hash-len-exceeds-integer:max%d>%s-digits%d" % (ub, ty, digits), "--hash-branch-len up to %d is accepted but the number is parsed as %s, which only holds every %d-digit number: some branches fail with 'number too large'" % (ub, ty, digits), f.where())
